@@ -179,7 +179,13 @@ def check(ctx, rep):
         called = [c for st in zero_trip[0].body for c in own_nodes(st) if isinstance(c, ast.Call)]
         shape = [(c.func.attr if isinstance(c.func, ast.Attribute) else norm(c.func), [norm(a) for a in c.args]) for c in called]
         rep.ob('direction.zero-trip', 'empty loop jumps to NEXT and iterates once to unwind',
-               shape == [('seek', [nextname]), ('iterate_loop', [])], repr(shape), ctx.where(zero_trip[0]))
+               shape[:2] == [('seek', [nextname]), ('iterate_loop', [])], repr(shape), ctx.where(zero_trip[0]))
+        # ... and then goes on with the rest of a NEXT list (NEXT J, I), stopping at the first loop that continues
+        rest = [w for st in zero_trip[0].body for w in own_nodes(st) if isinstance(w, ast.While)]
+        okr = len(rest) == 1 and norm(rest[0].test) == "ins.skip_blank_read_if((b',',))" and len(rest[0].body) == 1 and isinstance(rest[0].body[0], ast.If) \
+            and norm(rest[0].body[0].test) == 'self.iterate_loop(self.parser.parse_name(ins))' and [type(x).__name__ for x in rest[0].body[0].body] == ['Break']
+        rep.ob('direction.zero-trip-next-list', 'an empty loop closed by NEXT with a variable list iterates the remaining variables as NEXT does', okr,
+               'the rest of the NEXT list is left unparsed: FOR I.. FOR J=2 TO 1 .. NEXT J,I ends in Syntax error', ctx.where(zero_trip[0]))
     le = [n for n in own_nodes(it) if isinstance(n, ast.Assign) and norm(n.targets[0]) == 'loop_ends']
     ok = False
     if len(le) == 1 and isinstance(le[0].value, ast.IfExp):
@@ -332,6 +338,8 @@ def variants(ctx):
         Va('for-zero-trip-wrong-direction', 'break', INTERP,
            in_fn('for_', lambda fn: mu.replace_expr(fn, mu.text_is('start.gt(stop) if step.sign() >= 0 else stop.gt(start)'),
                                                     'stop.gt(start) if step.sign() >= 0 else start.gt(stop)')), expect='direction.zero-trip'),
+        Va('zero-trip-for-ignores-the-next-list', 'break', INTERP,
+           in_fn('for_', lambda fn: mu.remove_stmt(fn, lambda st: isinstance(st, ast.While) and 'skip_blank_read_if' in norm(st.test))), expect='direction.zero-trip-next-list'),
         Va('iterate-ends-on-ge', 'break', INTERP,
            in_fn('iterate_loop', lambda fn: mu.replace_expr(fn, mu.text_is('counter_view.gt(stop) if sgn >= 0 else stop.gt(counter_view)'),
                                                             'not stop.gt(counter_view) if sgn >= 0 else not counter_view.gt(stop)')), expect='direction.termination'),
